@@ -205,7 +205,8 @@ func (ssc *defaultStatefulSetControl) truncateHistory(
 	}
 	// collect live revisions and historic revisions
 	for i := range revisions {
-		if !live[revisions[i].Name] {
+		// an orphan that has not been adopted (the set is being deleted) is not part of set's history
+		if !live[revisions[i].Name] && metav1.IsControlledBy(revisions[i], set) {
 			history = append(history, revisions[i])
 		}
 	}
